@@ -540,6 +540,13 @@ class Program:
             suf = '::'.join(parts[-2:])
             c2 = [f for f in c if strip_generics(f.name).endswith(suf)]
             if len(c2) == 1: return c2[0]
+        if len(parts) >= 2:
+            # an item nested in a method: call sites name the type (`Svc::m::inner`), definitions the impl span (`<impl at ..>::m::inner`)
+            for k_ in range(2, len(parts) + 1):
+                suf = '::' + '::'.join(parts[-k_:])
+                c3 = [f for n_, f in s.fns.items() if strip_generics(n_).endswith(suf)]
+                if len(c3) == 1: return c3[0]
+                if not c3: break
         return None
 
 
